@@ -3,6 +3,11 @@
 package network
 
 import (
+	"net"
+	"crypto/cipher"
+	"crypto/aes"
+	"github.com/piotrnar/gocoin/lib/secp256k1"
+	"github.com/piotrnar/gocoin/lib/others/qdb"
 	"github.com/piotrnar/gocoin/lib/others/siphash"
 	"os"
 	"bytes"
@@ -335,5 +340,261 @@ func H_C18_BlockTxn() {
 	h_locks_free(c, "C18.blocktxn.unlocked")
 	if _, still := col.Txs[1].(uint64); !still {
 		zzverif.Reach("filled")
+	}
+}
+
+// h_all_locks_free: the handler's named locks plus (under the engine) every other mutex of any package.
+func h_all_locks_free(c *OneConnection, label string) {
+	h_locks_free(c, label)
+	zzverif.Assert(label+".TxMutex", !zzverif.MutexHeld(&txpool.TxMutex))
+	zzverif.Assert(label+".any-mutex", zzverif.MutexesHeld() == 0)
+}
+
+// C18: "addr": count + 30-byte records; the peers database is a stub (arbitrary size, record present or not).
+func H_C18_Addr() {
+	h_stubs()
+	c := h_conn()
+	if zzverif.Symbolic() {
+		zzverif.Stub("(*qdb.DB).Count / Get / Put: arbitrary size, arbitrary known record or none, no effect")
+		cnt := int(zzverif.Range64("peerdb.count", 100000))
+		zzverif.Replace("(*qdb.DB).Count", func(db *qdb.DB) int { return cnt })
+		zzverif.Replace("(*qdb.DB).Get", func(db *qdb.DB, k qdb.KeyType) []byte {
+			if zzverif.Bool("peerdb.has") {
+				return zzverif.Bytes("peerdb.rec", 30)
+			}
+			return nil
+		})
+		zzverif.Replace("(*qdb.DB).Put", func(db *qdb.DB, k qdb.KeyType, v []byte) {})
+	} else {
+		dir, _ := os.MkdirTemp("", "zzverif_c18_")
+		defer os.RemoveAll(dir)
+		old := peersdb.PeerDB
+		peersdb.PeerDB, _ = qdb.NewDB(dir+"/peers3", true)
+		defer func() { peersdb.PeerDB.Close(); peersdb.PeerDB = old }()
+	}
+	maxL := 35 + 29*zzverif.Tier()
+	zzverif.Bound("addr payload", "every byte string of 0..35 and of 61 bytes (quick) / 0..64 bytes (thorough): count + up to 2 records")
+	L := zzverif.Len("L", 0, maxL+1-zzverif.Tier())
+	if L == maxL+1 {
+		L = 61
+	}
+	pl := zzverif.Bytes("pl", L)
+	panicked := zzverif.Panics(func() { c.ParseAddr(pl) })
+	zzverif.Assert("C18.addr.nopanic", !panicked)
+	h_all_locks_free(c, "C18.addr.unlocked")
+	zzverif.Assert("C18.addr.work", zzverif.EventCount("send:addr") == 0)
+	if L >= 61 {
+		zzverif.Reach("two-records")
+	}
+}
+
+// C18: "pong" for every payload of 0..16 bytes against an arbitrary ping in progress.
+func H_C18_Pong() {
+	h_stubs()
+	c := h_conn()
+	if zzverif.Bool("ping.in-progress") {
+		c.PingInProgress = zzverif.Bytes("ping.nonce", 8)
+	}
+	c.X.GetHeadersInProgress = zzverif.Bool("X.GetHeadersInProgress")
+	c.X.PingSentCnt = zzverif.U64("X.PingSentCnt")
+	c.X.GetHeadersSentAtPingCnt = zzverif.U64("X.GetHeadersSentAtPingCnt")
+	L := zzverif.Len("L", 0, 16)
+	pl := zzverif.Bytes("pl", L)
+	panicked := zzverif.Panics(func() { c.HandlePong(pl) })
+	zzverif.Assert("C18.pong.nopanic", !panicked)
+	if c.PingInProgress == nil {
+		zzverif.Reach("ping-cleared")
+	}
+	h_all_locks_free(c, "C18.pong.unlocked")
+	zzverif.Assert("C18.pong.history-index", c.X.PingHistoryIdx >= 0 && c.X.PingHistoryIdx < PingHistoryLength)
+}
+
+// C18: "tx": every payload up to the bound; the mempool's need-this-transaction verdict is arbitrary.
+func H_C18_Tx() {
+	h_stubs()
+	c := h_conn()
+	zzverif.LoopBound("btc.NewTx", 1)
+	zzverif.LoopBound("btc.NewTxIn", 2)
+	zzverif.LoopBound("btc.NewTxOut", 2)
+	if zzverif.Symbolic() {
+		zzverif.Stub("txpool.NeedThisTxExt: arbitrary verdict, callback run when wanted")
+		zzverif.Replace("txpool.NeedThisTxExt", func(id *btc.Uint256, cb func()) int {
+			w := zzverif.Enum("need-tx", 5)
+			if w == 0 && cb != nil {
+				txpool.TxMutex.Lock()
+				cb()
+				txpool.TxMutex.Unlock()
+			}
+			return w
+		})
+	}
+	maxL := 70 + 40*zzverif.Tier()
+	zzverif.AllocLimit(1 << 16)
+	zzverif.Bound("tx payload", "every byte string of 0..70 (110) bytes; transactions of <= 1 input / 1 output")
+	L := zzverif.Len("L", 0, maxL)
+	pl := zzverif.Bytes("pl", L)
+	cmd := &BCmsg{cmd: "tx", pl: pl}
+	panicked := zzverif.Panics(func() { c.ParseTxNet(cmd) })
+	zzverif.Assert("C18.tx.nopanic", !panicked)
+	h_all_locks_free(c, "C18.tx.unlocked")
+	// drain what the handler queued (native runs share the channel)
+	for len(NetTxs) > 0 {
+		<-NetTxs
+		zzverif.Reach("queued")
+	}
+}
+
+// C18: "xauth": 33-byte key + DER signature + optional last-block fields, every payload up to the bound. The ECDH
+// multiplication and the signature verdict are arbitrary; one authorised key is configured.
+func H_C18_XAuth() {
+	h_stubs()
+	c := h_conn()
+	c.X.AuthMsgGot = zzverif.Bool("X.AuthMsgGot")
+	key := append([]byte{2}, bytes.Repeat([]byte{0x33}, 32)...)
+	oldKeys := AuthPubkeys
+	AuthPubkeys = [][]byte{key}
+	defer func() { AuthPubkeys = oldKeys }()
+	if common.Last.Block == nil {
+		common.Last.Block = new(chain.BlockTreeNode)
+	}
+	if zzverif.Symbolic() {
+		zzverif.Stub("secp256k1.Multiply, (*secp256k1.XY).ParsePubkey, (*secp256k1.Signature).Verify: arbitrary verdicts; common.ApplyLTB: no effect")
+		zzverif.Replace("secp256k1.Multiply", func(xy, k, out []byte) bool { return zzverif.Bool("ecdh.ok") })
+		zzverif.Replace("(*secp256k1.XY).ParsePubkey", func(p *secp256k1.XY, b []byte) bool { return true })
+		zzverif.Replace("(*secp256k1.Signature).Verify", func(s *secp256k1.Signature, k *secp256k1.XY, m *secp256k1.Number) bool {
+			return zzverif.Bool("sig.ok")
+		})
+		zzverif.Replace("common.ApplyLTB", func(h *btc.Uint256, height uint32) {})
+	}
+	maxL := 33 + 10 + 40*zzverif.Tier()
+	zzverif.Bound("xauth payload", "every byte string of 0..43 (83) bytes and the configured key followed by every string of 0..46 bytes (signatures with 1-byte R and S, then hash and height)")
+	var pl []byte
+	if zzverif.Bool("known-key") {
+		R := zzverif.Len("rest", 0, 46)
+		pl = append(append([]byte{}, key...), zzverif.Bytes("rest", R)...)
+	} else {
+		L := zzverif.Len("L", 0, maxL)
+		pl = zzverif.Bytes("pl", L)
+	}
+	panicked := zzverif.Panics(func() { c.AuthRvcd(pl) })
+	zzverif.Assert("C18.xauth.nopanic", !panicked)
+	h_all_locks_free(c, "C18.xauth.unlocked")
+	zzverif.Assert("C18.xauth.cfg-lock", !zzverif.MutexHeld(&common.Last.Mutex))
+	if c.X.Authorized {
+		zzverif.Reach("authorised")
+	}
+}
+
+// C18: "block": lock discipline and bookkeeping of the block receiver on every payload of 0..120 bytes, with the
+// header verdict and the block check arbitrary (what PostCheckBlock decides is C05/C09's subject).
+func H_C18_NetBlock() {
+	h_stubs()
+	c := h_conn()
+	b2g := new(OneBlockToGet)
+	b2g.Block, _ = btc.NewBlock(make([]byte, 80))
+	b2g.BlockTreeNode = new(chain.BlockTreeNode)
+	if !zzverif.Symbolic() {
+		return // the stubbed header and block verdicts have no native counterpart
+	}
+	zzverif.Stub("(*OneConnection).ProcessNewHeader, (*chain.Chain).PostCheckBlock: arbitrary verdicts; DeleteBranch, queueNewBlock: no effect")
+	zzverif.Replace("(*network.OneConnection).ProcessNewHeader", func(c *OneConnection, hdr []byte) (int, *OneBlockToGet) {
+		if zzverif.Bool("hdr.rejected") {
+			return 4 + zzverif.Enum("hdr.status", 2), nil
+		}
+		return PH_STATUS_NEW, b2g
+	})
+	zzverif.Replace("(*chain.Chain).PostCheckBlock", func(ch *chain.Chain, bl *btc.Block) error {
+		switch zzverif.Enum("postcheck", 3) {
+		case 0:
+			return nil
+		case 1:
+			return errors.New("RPC_Result:bad-witness-nonce-size")
+		}
+		return errors.New("bad block")
+	})
+	zzverif.Replace("(*chain.Chain).DeleteBranch", func(ch *chain.Chain, n *chain.BlockTreeNode, cb func(*btc.Uint256)) {})
+	zzverif.Replace("network.queueNewBlock", func(b *BlockRcvd) { zzverif.Event("queued") })
+	zzverif.Replace("(*btc.Block).MerkleRootMatch", func(bl *btc.Block) bool { return zzverif.Bool("merkle.match") })
+	L := zzverif.Len("L", 0, 120)
+	if L > 4 && L < 96 {
+		zzverif.Assume(false) // short payloads are refused by length alone: a few of them are enough
+	}
+	pl := zzverif.Bytes("pl", L)
+	cmd := &BCmsg{cmd: "block", pl: pl, trusted: zzverif.Bool("trusted")}
+	panicked := zzverif.Panics(func() { c.netBlockReceived(cmd) })
+	zzverif.Assert("C18.block.nopanic", !panicked)
+	h_all_locks_free(c, "C18.block.unlocked")
+	if zzverif.EventCount("queued") == 1 {
+		zzverif.Reach("queued")
+	}
+}
+
+// C18: message framing (FetchMessage): a 24-byte header with our magic, a command from a case split, a length
+// field from a case split that includes the "encrypted" bit and over-size values, an arbitrary checksum verdict,
+// followed by an arbitrary payload of up to 64 bytes. The socket delivers whatever each read asks for.
+func H_C18_Framing() {
+	h_stubs()
+	c := h_conn()
+	cmds := []string{"version", "inv", "block", "zzunknown", ""}
+	cmd := cmds[zzverif.Enum("cmd", len(cmds))]
+	lens := []uint32{0, 1, 33, 64, 0x80000000, 0x80000001, 0x80000040, 1800010, 4000001, 0x7fffffff, 0xffffffff}
+	lenField := lens[zzverif.Enum("length-field", len(lens))]
+	zzverif.Bound("framing", "commands version/inv/block/unknown/empty; length fields 0, 1, 33, 64, 0x80000000, 0x80000001, 0x80000040, 1800010, 4000001, 0x7fffffff, 0xffffffff; payload bytes arbitrary (at most 64 delivered); checksum right or wrong; with and without an encryption context")
+	plen := int(lenField & 0x7fffffff)
+	if plen > 64 {
+		plen = 64
+	}
+	payload := zzverif.Bytes("payload", plen)
+	sum := btc.Sha2Sum(payload)
+	if !zzverif.Bool("checksum.ok") {
+		sum[0] ^= 1
+	}
+	if zzverif.Bool("has-aes-context") {
+		blk, _ := aes.NewCipher(make([]byte, 32))
+		gcm, _ := cipher.NewGCM(blk)
+		c.aesData = &aesData{Block: blk, AEAD: gcm, nonceSize: gcm.NonceSize()}
+	}
+	wire := append([]byte{}, common.Magic[:]...)
+	var cmdb [12]byte
+	copy(cmdb[:], cmd)
+	wire = append(wire, cmdb[:]...)
+	wire = append(wire, byte(lenField), byte(lenField>>8), byte(lenField>>16), byte(lenField>>24))
+	wire = append(wire, sum[:4]...)
+	wire = append(wire, payload...)
+	if zzverif.Symbolic() {
+		zzverif.Stub("common.SockRead delivers the next bytes of the wire image, as many as asked for; (*OneConnection).Decrypt: arbitrary failure or the ciphertext as plaintext")
+		pos := 0
+		zzverif.Replace("common.SockRead", func(con net.Conn, b []byte) (int, error) {
+			n := copy(b, wire[pos:])
+			pos += n
+			return n, nil
+		})
+		zzverif.Replace("(*network.OneConnection).Decrypt", func(c *OneConnection, ct []byte) ([]byte, error) {
+			if zzverif.Bool("decrypt.fails") {
+				return nil, errors.New("stub")
+			}
+			return ct, nil
+		})
+	} else {
+		a, b := net.Pipe()
+		c.Conn = a
+		done := make(chan bool)
+		go func() { b.Write(wire); <-done; b.Close() }()
+		defer func() { close(done); a.Close() }()
+	}
+	zzverif.AllocLimit(4 << 20)
+	var got *BCmsg
+	panicked := zzverif.Panics(func() {
+		for i := 0; i < 3 && got == nil; i++ {
+			got, _ = c.FetchMessage()
+		}
+	})
+	zzverif.Assert("C18.framing.nopanic", !panicked)
+	h_all_locks_free(c, "C18.framing.unlocked")
+	if got != nil {
+		zzverif.Reach("message")
+		zzverif.Assert("C18.framing.command", got.cmd == cmd)
+		zzverif.Assert("C18.framing.length", int(lenField&0x7fffffff) == plen)
+		zzverif.Assert("C18.framing.trusted-only-if-authorised", !got.trusted || c.X.Authorized)
 	}
 }
